@@ -51,16 +51,16 @@ PROP = {
                   "document (about 60 Migrate calls for an old document), an order of magnitude above the design "
                   "estimate, hence the smaller case counts.",
     "tests": [
-        ("TestVFC13Valid", (300, 1200)),
-        ("TestVFC13Shape", (700, 3000)),
-        ("TestVFC13Bytes", (1500, 5000)),
+        ("TestVFC13Valid", (300, 1000)),
+        ("TestVFC13Shape", (600, 2500)),
+        ("TestVFC13Bytes", (1200, 4000)),
         ("TestVFC13Auth", (30, 60), {"shards": (1, 8), "shrinktime": "5s"}),
     ],
-    "plain": ["TestVFC13RegressNullObject", "TestVFC13RegressNullDocument"],
+    "plain": ["TestVFC13RegressNullObject", "TestVFC13RegressNullDocument", "TestVFC13Golden"],
     "shards": (2, 16),
     "workers": (4, 16),
     "rule": "One evaluation = one generated document put through the upgrade with all oracles (plus 17 frozen "
-            "regression documents). Cases: schema version uniform in 0..29; class (a) = a valid document of that "
+            "regression documents and the repository's 28 golden inputs, upgraded all the way). Cases: schema version uniform in 0..29; class (a) = a valid document of that "
             "schema with 1-3 shape mutations and/or a hostile schema_version, or a valid text with 1-3 byte-level "
             "edits; class (b) = abstract settings rendered in the schema's layout with validity-preserving edits. "
             "Non-trivial = the document holds at least one non-null top-level key that some step between its "
